@@ -102,6 +102,9 @@ func c19Signer(c *Ctx) {
 	for ch := 0; ch < c19Labels; ch++ {
 		for cs := 0; cs < c19Labels; cs++ {
 			for h := 0; h < c19Labels; h++ {
+				if h == 0 && ch != 0 {
+					continue // a miss on the zero hash signs the zero hash: no label for that signature (block hashes are never zero)
+				}
 				op := fmt.Sprintf("sign %d %d %d", ch, cs, h)
 				out := Safe(func() string {
 					consensus.VerifSetSigCache(c19HashOf(ch), sigs[cs])
